@@ -118,7 +118,7 @@ def work_exact(chunk_id, payload):
     cases, meta = [], {}
     for k in range(n):
         ctype = physics.TYPES[(chunk_id + k) % 8]
-        p = int(rng.choice([1, 2, 2, 3]))
+        p = int(rng.choice([1, 1, 2, 2, 3]))
         r = c = p
         if p == 2 and rng.random() < 0.2:
             if ctype in physics.T_TYPES:
@@ -146,6 +146,35 @@ def work_exact(chunk_id, payload):
         trk = rng.integers(0, 4)
         tr = None if trk == 0 else (0.0 if trk == 1 else
                                     10 ** rng.uniform(-5, -1))
+        if sc.p == 1 and rng.random() < 0.5:
+            # wide dynamic range: the first standard is a load that cancels
+            # the raw directivity down to 1e-9..1e-5, the noise floor is low
+            # and the signal-proportional part large, so the weights of the
+            # equations differ by up to 1e8 (exact data: the weighting still
+            # must not change the answer)
+            vals = []
+            for f in range(sc.F):
+                en = sc.enet[f]
+                if ctype in physics.COLUMN_TYPES:
+                    el_, er_, em_, et_ = en.cols[0]
+                    el_, er_, em_ = el_[0], er_[0, 0], em_[0, 0]
+                else:
+                    el_, er_, em_, et_ = (en.El[0, 0], en.Er[0, 0],
+                                          en.Em[0, 0], en.Et[0, 0])
+                m_ = 10 ** rng.uniform(-9, -5) * np.exp(
+                    2j * np.pi * rng.random())
+                vals.append((m_ - el_) / (er_ * et_ + em_ * (m_ - el_)))
+            prm = calgen.Param("vector" if sc.F > 1 else "scalar",
+                               np.array(vals, dtype=complex))
+            st0 = sc.add_reflect([1], [prm])
+            st0.entry, st0.form = "single_reflect", sc.form
+            st0.full_rows = st0.full_cols = True
+            st0.use_null_map = False
+            sc.stds = [st0] + sc.stds[:-1]
+            nf = 10 ** rng.uniform(-9, -7)
+            tr = 10 ** rng.uniform(-2, -1)
+            cnt["exact_wide_dynamic_range"] = cnt.get(
+                "exact_wide_dynamic_range", 0) + 1
         gk = str(rng.choice(["single", "two", "grid"]))
         s = Script()
         s.op("vc=vnacal_create")
